@@ -1,7 +1,7 @@
 #!/bin/bash
 # replay a stored counterexample natively: harness/replay.sh /verif/replays/<id>/<mod>__<harness>.values.json
 set -e
-p="$1"; b=$(basename "$p" .values.json); name="${b/__/::}"
+p="$(readlink -f "$1")"; b=$(basename "$p" .values.json); name="${b/__/::}"
 cd "$(dirname "$0")"
 export CARGO_NET_OFFLINE=true RUSTUP_TOOLCHAIN=$(sed -n 's/^channel *= *"\(.*\)"/\1/p' /repo/rust-toolchain.toml)
 cargo build --offline --features replay --bin replay --target-dir ../.work/native >/dev/null 2>&1
